@@ -45,12 +45,13 @@ def main():
             for d in demos:
                 names += re.findall(r"func (Test\w+)\(", open(os.path.join(seeded, d)).read())
             run = "^(%s)$" % "|".join(names) if names else "Seeded"
-            rc1, out1 = sh("%s test -vet=off -count=1 -run '%s' ./leader/ 2>&1 | tail -15" % (GO, run), cwd=wt)
+            race = "-race " if prop == "C20" else ""
+            rc1, out1 = sh("%s test %s-vet=off -count=1 -run '%s' ./leader/ 2>&1 | tail -15" % (GO, race, run), cwd=wt)
             failed_with = "FAIL" in out1 or "panic" in out1
             meta["steps"].append(dict(step="demonstration with the change (must fail)", failed=failed_with, out=out1[-600:]))
             ok &= failed_with
             sh("git apply -R %s" % patch, cwd=wt)
-            rc2, out2 = sh("%s test -vet=off -count=1 -run '%s' ./leader/ 2>&1 | tail -8" % (GO, run), cwd=wt)
+            rc2, out2 = sh("%s test %s-vet=off -count=1 -run '%s' ./leader/ 2>&1 | tail -8" % (GO, race, run), cwd=wt)
             passed_without = "FAIL" not in out2 and "ok" in out2
             meta["steps"].append(dict(step="demonstration without the change (must pass)", passed=passed_without, out=out2[-400:]))
             ok &= passed_without
